@@ -139,3 +139,39 @@ Definition del_before (es : list edit) (o : nat) : nat :=
 Definition untouched (es : list edit) (o : nat) : Prop :=
   forall e, In e es -> ~ (e_start e <= o /\ o < e_end e).
 Definition shifted (es : list edit) (o : nat) : nat := o + ins_before es o - del_before es o.
+
+(* ---------- the property itself, at full strength, with the outside world as Section variables ----------
+   Not provable by this technique (the analyzers, Go's grammar, type system and run-time behaviour are not
+   modelled): kept visible here; the check evaluates exactly this predicate, pointwise, on every (package,
+   problem) pair it observes, with the Go toolchain standing for [parses], [typechecks_adjusted] and
+   [same_behaviour].  What IS proved is in Props/C16.v (the position / edit algebra used below, and the rewrite
+   catalogue). *)
+Section FullStatement.
+  Variable package : Type.
+  Variable files_of : package -> list file.
+  Record problem := mkProblem {
+    pr_file : nat;                                  (* index of the file the problem is reported in *)
+    pr_start : nat * nat;
+    pr_end : option (nat * (nat * nat));            (* file index and position of the end, if any *)
+    pr_fixes : list (nat * list edit);              (* each fix: the one file it edits, and its edits *)
+    pr_equiv : bool                                 (* the check is in the simplification / quick-fix category *)
+  }.
+  Variable analyse : package -> list problem.                          (* all checks, through the runner; //line-remapped ones aside *)
+  Variable parses : list N -> bool.                                    (* go/parser *)
+  Variable typechecks_adjusted : package -> nat -> list N -> bool.     (* go/types on the package with file i replaced, imports adjusted *)
+  Variable same_behaviour : package -> nat -> list N -> Prop.          (* results, panics, visible effects of the affected function *)
+
+  Definition C16_full_statement : Prop :=
+    forall p pr, In pr (analyse p) ->
+      exists f, nth_error (files_of p) (pr_file pr) = Some f /\
+        valid_pos_b f (pr_start pr) = true /\
+        match pr_end pr with
+        | None => True
+        | Some (fi, e) => fi = pr_file pr /\ valid_pos_b f e = true /\ pos_le (pr_start pr) e = true
+        end /\
+        forall fx, In fx (pr_fixes pr) ->
+          exists g r, nth_error (files_of p) (fst fx) = Some g /\
+            apply_edits g (snd fx) = Some r /\          (* by overlap_detected: in bounds and not overlapping *)
+            parses r = true /\ typechecks_adjusted p (fst fx) r = true /\
+            (pr_equiv pr = true -> same_behaviour p (fst fx) r).
+End FullStatement.
